@@ -197,8 +197,9 @@ def run_dict(case):
             if j >= 11:
                 break
         # the breadth-first generator materialises the trees of all sub-problems
-        # (itertools.product): it is only run on a thinned dictionary (<= 2 rules per label)
-        thin = graphs.gfp_prune({k: set(sorted(v)[:2]) for k, v in pruned.items()})
+        # (itertools.product): it is only run on a thinned dictionary (one rule per label, two labels keep two)
+        wide = set(sorted(pruned)[:: max(1, len(pruned) // 2)][:2])  # two labels keep two rules
+        thin = graphs.gfp_prune({k: set(sorted(v)[: 2 if k in wide else 1]) for k, v in pruned.items()})
         if root in thin:
             for j, t in enumerate(ts.proof_tree_generator_bfs(thin, root=root)):
                 _tree_ok("proof_tree_generator_bfs", t, thin, root)
